@@ -233,6 +233,32 @@ def model_checks(ctx, d):
     return res
 
 
+def cross_check_programs(ctx, entries, tag):
+    """The generator's interpretation of every program (space size, startup instances, sequential result) against
+    TLC's evaluation of JDFSem on the same AST; TLC also checks WellFormed / Consistent.  Disagreement = tool error."""
+    from lib import tlc
+    pf = os.path.join(ctx.scratch, "progs-%s.ndjson" % tag)
+    with open(pf, "w") as f:
+        for e in entries:
+            f.write(jdfgen.to_json(e["prog"]) + "\n")
+    r = ctx.tlc_check("PTG", "ProgModel", "ProgModel.cfg", workers=1, env={"PROGS": pf}, timeout=1500, heap="4g")
+    seen = {}
+    for line in r.printed:
+        h = tlc._parse_tla_string_list(line)
+        if h:
+            seen[h["name"]] = h
+    if len(seen) != len(entries) or r.distinct != len(entries) + 1:
+        raise tlc.TLCError("vacuity guard: ProgModel evaluated %d of %d programs" % (len(seen), len(entries)))
+    for e in entries:
+        it, res = jdfgen.validate(e["prog"])
+        h = seen[e["prog"]["name"]]
+        if h["n"] != len(it.order) or h["startup"] != len(res["startup"]) or h["final"] != res["final"]:
+            raise tlc.TLCError("the generator and JDFSem.tla disagree on program %s %s: tasks %d/%d, startup %d/%d, "
+                               "final equal=%s" % (e["prog"]["name"], e["tags"], len(it.order), h["n"],
+                                                   len(res["startup"]), h["startup"], h["final"] == res["final"]))
+    ctx.extra["programs_cross_checked"] = ctx.extra.get("programs_cross_checked", 0) + len(entries)
+
+
 # ---------------------------------------------------------------------------------------------- campaigns
 def _ex_meta(entry, cfg, run):
     m = {"program": entry["prog"]["name"], "tags": entry["tags"], "config": {k: v for k, v in cfg.items()}}
@@ -259,6 +285,7 @@ def campaign(ctx, entries, configs, trace_cfg, tag, again=None, window_ms=1500, 
             keep.append(e)
         ctx.extra["skipped_known_class_programs"] = len(entries) - len(keep)
         entries = keep
+    cross_check_programs(ctx, entries, tag)
     exe = build_driver(ctx, [e["prog"] for e in entries], tag, backends=backends)
     executions = []          # (meta, events)
     hung = {}                # program name -> (meta, events)
@@ -352,6 +379,11 @@ def campaign(ctx, entries, configs, trace_cfg, tag, again=None, window_ms=1500, 
         ctx.violation("%s of generated PTG program %s %s under %s is rejected by ExecTrace (%s): %s" % (
             what, meta["program"], meta["tags"], meta["config"], trace_cfg, json.dumps(f.describe())[:900]),
             {"meta": meta, "events": f.execution, "detail": f.describe(), "trace_cfg": trace_cfg})
+    if not fails and distinct:
+        cands = [ex for ex in distinct if 8 <= len(ex) <= 60 and any(ev.get("e") == "End" and any(ev.get("w") or [])
+                                                                      for ev in ex)] or distinct
+        fn, txt = corrupt_exec(trace_cfg)
+        corruption_selftest(ctx, "PTG", "ExecTrace", trace_cfg, cands[0], fn, txt)
     # hangs: the Timeout event is never enabled; validate (at most two, the others are the same observation)
     isdesc = {e["prog"]["name"]: e["desc"] for e in entries}
     names = sorted(hung, key=lambda n: (isdesc.get(hung[n][0]["program"], False), n))    # other classes first
@@ -370,6 +402,58 @@ def campaign(ctx, entries, configs, trace_cfg, tag, again=None, window_ms=1500, 
                            "jdf": jdfgen.to_jdf(entry["prog"])},
                           key=(known_key if entry["desc"] else None))
     return executions, hung
+
+
+def corruption_selftest(ctx, spec_dir, module, cfg, execution, corrupt, what):
+    """Sensitivity of the trace specification: `corrupt` changes one field of an accepted execution (returns the
+    corrupted copy or None); the result must be rejected, otherwise the check itself is broken (tool error)."""
+    from lib import tlc
+    bad = corrupt(json.loads(json.dumps(execution)))
+    if bad is None:
+        return
+    ok = tracecheck.validate_executions(ctx.spec(spec_dir), module, cfg, [execution], confirm=False, max_failures=1)
+    rej = tracecheck.validate_executions(ctx.spec(spec_dir), module, cfg, [bad], confirm=False, max_failures=1)
+    ctx.extra["trace_tlc_runs"] = ctx.extra.get("trace_tlc_runs", 0) + ok.tlc_runs + rej.tlc_runs
+    if ok.failures or not rej.failures:
+        raise tlc.TLCError("sensitivity self-test of %s/%s failed (%s): original accepted=%s, corrupted rejected=%s" % (
+            module, cfg, what, not ok.failures, bool(rej.failures)))
+    ctx.extra.setdefault("corruption_selftests", []).append(
+        {"what": what, "rejected_at": rej.failures[0].describe()["matched_prefix"], "of": len(bad)})
+
+
+def corrupt_exec(trace_cfg):
+    """one-field corruptions of an ExecTrace execution, by configuration"""
+    def c01(ex):            # a body of an instance that is not in the space
+        for ev in ex:
+            if ev.get("e") == "Start" and ev["p"]:
+                key = (ev["c"], list(ev["p"]))
+                for e2 in ex:
+                    if e2.get("e") in ("Start", "End", "Again") and (e2["c"], list(e2["p"])) == key:
+                        e2["p"] = [e2["p"][0] + 1000] + list(e2["p"][1:])
+                return ex
+        return None
+
+    def c02(ex):            # one value written differs by one
+        for ev in ex:
+            if ev.get("e") == "End" and any(ev["w"]):
+                for w in ev["w"]:
+                    if w:
+                        w[0] = (w[0] + 1) % FMOD_
+                        return ex
+        return None
+
+    def c16(ex):            # a second Start/End of an instance that already ended
+        for i, ev in enumerate(ex):
+            if ev.get("e") == "End":
+                st = [e for e in ex[:i] if e.get("e") == "Start" and e["c"] == ev["c"] and e["p"] == ev["p"]][-1]
+                return ex[:i + 1] + [dict(st), dict(ev)] + ex[i + 1:]
+        return None
+    return {"ExecTraceC01.cfg": (c01, "Start of an instance outside the space"),
+            "ExecTraceC02.cfg": (c02, "one written value changed"),
+            "ExecTraceC16.cfg": (c16, "an ended instance started again")}[trace_cfg]
+
+
+FMOD_ = jdfgen.FMOD
 
 
 def replay_trace(ctx, obj):
